@@ -7,6 +7,7 @@
 From Coq Require Import NArith ZArith List.
 From stdpp Require Import gmap.
 From CV Require Import Chain.Manager Chain.ManagerProofs.
+From CV Require Import Net.MgrLive Net.MgrLiveProofs.
 Import ListNotations.
 Open Scope N_scope.
 
@@ -110,3 +111,35 @@ Theorem C01_notify_iff_tip_changed :
     (nt = true ↔ tip m' ≠ tip (mrun U ops)).
 Proof. exact notify_iff_tip_changed. Qed.
 Print Assumptions C01_notify_iff_tip_changed.
+
+(** Heaviest-known, per call (the model side of the harness monitor
+    c01-heavier-valid-chain-not-adopted / -refused).  In a state satisfying the invariant
+    whose store was never pruned ([all_body]), submitting a non-empty chain [l] of acceptable
+    blocks ([okb]: header and body valid, not from the future; [lp]: each block's parent is
+    its predecessor, the first one's is [c]) that hangs on the best chain through stored,
+    applicable blocks ([hangs]) succeeds, and the reorg decision is taken for its last block:
+    if that block is sufficiently heavier than the tip it IS the new tip, otherwise the best
+    chain is unchanged.  Non-vacuity: [ex_add_blocks_live] in Net/MgrLiveProofs.v.  (Batches
+    that are not chain-shaped and pruned stores are covered by the monitor only.) *)
+Theorem C01_heavier_valid_chain_adopted :
+  ∀ U, WF U → ∀ m c l,
+    MInv U m → all_body m → hangs U m c → l ≠ [] →
+    lp U (reverse l) c → (∀ x, x ∈ l → okb U x = true) →
+    ∃ m', add_blocks U m l = (m', Ok, heavier U (List.last l c) (tip m)) ∧
+          MInv U m' ∧ all_body m' ∧ hangs U m' (List.last l c) ∧
+          (if heavier U (List.last l c) (tip m) then tip m' = List.last l c
+           else best m' = best m).
+Proof. exact add_blocks_live. Qed.
+Print Assumptions C01_heavier_valid_chain_adopted.
+
+(** The same through AddValidatedV2Blocks. *)
+Theorem C01_heavier_prevalidated_chain_adopted :
+  ∀ U, WF U → ∀ m c l,
+    MInv U m → all_body m → hangs U m c → l ≠ [] →
+    lp U (reverse l) c → (∀ x, x ∈ l → okb U x = true) →
+    ∃ m', add_validated U m l = (m', Ok, heavier U (List.last l c) (tip m)) ∧
+          MInv U m' ∧ all_body m' ∧ hangs U m' (List.last l c) ∧
+          (if heavier U (List.last l c) (tip m) then tip m' = List.last l c
+           else best m' = best m).
+Proof. exact add_validated_live. Qed.
+Print Assumptions C01_heavier_prevalidated_chain_adopted.
